@@ -450,6 +450,9 @@ def _render_fn_lines(p, fid, ctx, prelude):
         lines.append("    return \"\"")
     elif f.get("ret") == "empty_bytes":
         lines.append("    return b\"\"")
+    elif f.get("ret") == "crlf_str":
+        # text with Windows and old-Mac line ends (a text-mode file would translate them)
+        lines.append("    return \"rows\\r\\n\" + \"|\".join(repr(y) for y in r) + \"\\r\\nprogress 50%\\rprogress 100%\\n\"")
     elif f.get("ret") == "str":
         lines.append("    return \"|\".join(repr(y) for y in r)")
     else:
